@@ -638,8 +638,17 @@ impl Disk {
         match loc.cluster1 {
             Some(cluster1) => {
                 let mut data: Vec<u8> = Vec::new();
-                let cluster = cluster1.unwrap() + loc.entry.unwrap() / entries_per_cluster;
-                let entry_beg = (cluster - cluster1.unwrap()) * entries_per_cluster;
+                // the directory's clusters need not be contiguous: follow the chain to the one holding this entry
+                let cluster_idx = loc.entry.unwrap() / entries_per_cluster;
+                let mut curr = cluster1;
+                for _i in 0..cluster_idx {
+                    curr = match self.next_cluster(&curr)? {
+                        Some(next) => next,
+                        None => return Err(Box::new(Error::BadFAT))
+                    };
+                }
+                let cluster = curr.unwrap();
+                let entry_beg = cluster_idx * entries_per_cluster;
                 for i in entry_beg..entry_beg+entries_per_cluster {
                     data.append(&mut loc.dir.get_raw_entry(&Ptr::Entry(i)).to_vec());
                 }
@@ -651,7 +660,7 @@ impl Disk {
                 let [sec_beg,_sec_end] = self.boot_sector.root_dir_sec_rng();
                 let lsec = sec_beg as usize + loc.entry.unwrap() / entries_per_sector;
                 let entry_beg = (lsec - sec_beg as usize) * entries_per_sector;
-                for i in entry_beg..entry_beg+entries_per_cluster {
+                for i in entry_beg..entry_beg+entries_per_sector {
                     data.append(&mut loc.dir.get_raw_entry(&Ptr::Entry(i)).to_vec());
                 }
                 let [cyl,head,sec] = self.get_chs(&Ptr::LogicalSector(lsec))?;
